@@ -1,6 +1,7 @@
 import Bpmn.Props.C12
 import Bpmn.Props.EngineCurrent
 import Bpmn.Props.C12Current
+import Bpmn.Props.C12Steps
 open Bpmn.Props.C12 Bpmn.Props.EngineCurrent
 #print axioms C12_partial
 #print axioms settle_holds_parent
@@ -12,3 +13,9 @@ open Bpmn.Props.C12 Bpmn.Props.EngineCurrent
 #print axioms current_relay_first
 #print axioms current_sub_completion
 #print axioms current_sub_monitor_first
+#print axioms Bpmn.Props.C12Steps.enter_sub_tokens
+#print axioms Bpmn.Props.C12Steps.enter_sub_holds_parent
+#print axioms Bpmn.Props.C12Steps.enter_sub_twice_flagged
+#print axioms Bpmn.Props.C12Steps.return_needs_empty_scope
+#print axioms Bpmn.Props.C12Steps.return_sub_once
+#print axioms Bpmn.Props.C12Steps.sub_programs_are_token_game
